@@ -74,6 +74,74 @@ def importer(backend):
     return _imps[backend]
 
 
+ALGO_ATTRS = ['weight', 'capacity', 'cost', 'length', 'distance']       # names graph algorithms look at
+ALGO_VALUES = [1, 2, 3, 5, 10, 100, 0, -1, -7, 0.5, 2.5, 10 ** 30, 'fast', '10', '', None, True]
+
+
+def pair_key(a, b):
+    return '|'.join(sorted([a, b], key=nid_n))
+
+
+def lprops_of(case, gid, a, b):
+    """ordinary link properties of the case (graph['lprops'] = {'nA|nB': {name: value}}); None when there are none"""
+    for g in case['graphs']:
+        if g['gid'] == gid:
+            return g.get('lprops', {}).get(pair_key(a, b)) or None
+    return None
+
+
+def nprops_of(case, gid, nid):
+    for g in case['graphs']:
+        if g['gid'] == gid:
+            return g.get('nprops', {}).get(nid) or {}
+    return {}
+
+
+def add_algo_props(rng, case, p_link=0.6, numeric_only=False):
+    """give links (and nodes) ordinary properties whose NAMES are attribute names graph algorithms look at"""
+    vals = [v for v in ALGO_VALUES if isinstance(v, (int, float)) and not isinstance(v, bool) and v > 0] if numeric_only else ALGO_VALUES
+    for g in case['graphs']:
+        lp, np_ = g.setdefault('lprops', {}), g.setdefault('nprops', {})
+        for l in g['links']:
+            if rng.random() < p_link:
+                d = lp.setdefault(pair_key(l[0], l[1]), {})
+                for name in rng.sample(ALGO_ATTRS, rng.choice([1, 1, 2])) + (['weight'] if rng.random() < 0.5 else []):
+                    d[name] = rng.choice(vals)
+        for n in g['nodes']:
+            if rng.random() < 0.25:
+                np_[n[0]] = {rng.choice(ALGO_ATTRS): rng.choice(vals)}
+
+
+def add_weighted_detour(rng, case, id_pool):
+    """a graph of its own: a short route whose links carry a large `weight` (cost, length ...) property and a route
+    with more links whose properties sum to less; the contract counts links"""
+    k = rng.choice([1, 1, 2])                       # links on the short route
+    extra = rng.choice([1, 2])
+    ids = rng.sample(id_pool, 2 + (k - 1) + (k + extra - 1))
+    a, z = ids[0], ids[1]
+    short = [a] + ids[2:2 + k - 1] + [z]
+    long_ = [a] + ids[2 + k - 1:] + [z]
+    rel = rng.choice(['connects', 'has'])
+    name = rng.choice(['weight', 'weight', 'weight'] + ALGO_ATTRS)
+    heavy = rng.choice([10, 100, 10 ** 30, 7.5])
+    light = rng.choice([1, 0, 0.25, 1]) if rng.random() < 0.85 else rng.choice([-1, 'fast', None])
+    nodes = [[x, rng.choice(CLASSES)] for x in ids]
+    links, lp = [], {}
+    for path, w in ((short, heavy), (long_, light)):
+        for x, y in zip(path, path[1:]):
+            links.append([x, y, rel])
+            lp[pair_key(x, y)] = {name: w, 'weight': w} if rng.random() < 0.8 else {name: w}
+    rng.shuffle(nodes)
+    rng.shuffle(links)
+    gid = 'g%d' % len(case['graphs'])
+    case['graphs'].append({'gid': gid, 'nodes': nodes, 'links': links, 'lprops': lp})
+    for s_, t_ in ((a, z), (z, a)):
+        case['queries'].append(['sp', gid, s_, t_, None])
+        case['queries'].append(['sp', gid, s_, t_, rel])
+        case['queries'].append(['hops', gid, s_, t_, [], 100])
+    case['queries'].append(['first', gid, a, rel, nodes[0][1]])
+
+
 def build_store(case):
     """build the graphs of the case through the public API; returns (importer, {gid: graph object})"""
     imp = importer(case.get('backend', 'joint'))
@@ -92,13 +160,13 @@ def build_store(case):
         for t in tup:
             if t is not None:
                 gid, (nid, cls) = t
-                objs[gid].add_node(node_id=nid, label=cls, props={'Name': 'name-' + nid})
+                objs[gid].add_node(node_id=nid, label=cls, props=dict(nprops_of(case, gid, nid), Name='name-' + nid))
     iters = [[(g['gid'], l) for l in g['links']] for g in case['graphs']]
     for tup in itertools.zip_longest(*iters):
         for t in tup:
             if t is not None:
                 gid, (a, b, rel) = t
-                objs[gid].add_link(node_a=a, rel=rel, node_b=b)
+                objs[gid].add_link(node_a=a, rel=rel, node_b=b, props=lprops_of(case, gid, a, b))
     # links that cross graph boundaries (shared store only): the stitching step merge_nodes(common id, other
     # graph) leaves the merged node joined to nodes that still carry the other graph's GraphID ...
     if case.get('backend', 'joint') == 'joint':
@@ -537,6 +605,10 @@ def random_case(rng, backend):
                 qs.append(['hops', g['gid'], ha, hz, hops, rng.choice([100, 100, 100, 200, 0, 1, 2, 3, 4, -1])])
     case = {'backend': backend, 'graphs': graphs, 'queries': qs}
     if rng.random() < 0.2:
+        add_weighted_detour(rng, case, id_pool)
+    if rng.random() < 0.35:
+        add_algo_props(rng, case)
+    if rng.random() < 0.2:
         add_chorded_detour(rng, case, id_pool)
     if CLASS_CONTAINMENT and rng.random() < 0.3:
         add_containment(rng, case, id_pool)
@@ -670,6 +742,9 @@ def exhaustive_cases(nmax, backend, hop_mode, sorted_classes_from=99, pair_class
             for ed in itertools.product([None] + rels, repeat=len(pairs)):
                 g = {'gid': 'g0', 'nodes': [[i, c] for i, c in zip(ids, cl)],
                      'links': [[a, b, r] for (a, b), r in zip(pairs, ed) if r is not None]}
+                # every link carries ordinary properties named weight / cost: heavy on `has`, light on `connects`
+                g['lprops'] = {pair_key(a, b): ({'weight': 10, 'cost': 'high'} if r == 'has' else {'weight': 1, 'length': 0})
+                               for (a, b), r in zip(pairs, ed) if r is not None}
                 cross = []
                 if backend == 'joint' and n >= 2:
                     # n0 -has- (g1's NetworkService n1), n1 -connects- (g1's ConnectionPoint n0), n0 -connects- (g1's Link n5)
@@ -746,6 +821,7 @@ class QueryStream(Stream):
     def histogram(self, cases, obs):
         h = {'queries': 0, 'graphs_in_store': {}, 'nodes_in_queried_graph': {}, 'kinds': {}, 'raised': 0,
              'nonempty_results': 0, 'known_finding_hits': 0, 'self_loops': 0, 'backend': {},
+             'links_with_algorithm_named_properties': 0, 'stores_with_algorithm_named_properties': 0,
              'nodes_with_neighbours_of_both_classes_of_a_containment_pair': 0, 'queries_for_a_class_of_a_containment_pair': 0,
              'stores_with_cross_graph_edges': 0, 'cross_graph_edges': 0, 'stores_after_merge_nodes': 0}
         for c, o in zip(cases, obs):
@@ -757,6 +833,9 @@ class QueryStream(Stream):
                 k = str(len(g['nodes']))
                 h['nodes_in_queried_graph'][k] = h['nodes_in_queried_graph'].get(k, 0) + 1
                 h['self_loops'] += sum(1 for l in g['links'] if l[0] == l[1])
+            nlp = sum(len(g.get('lprops', {})) for g in c['graphs'])
+            h['links_with_algorithm_named_properties'] += nlp
+            h['stores_with_algorithm_named_properties'] += nlp > 0
             pairc = set(x for p_ in CLASS_CONTAINMENT for x in p_)
             h['queries_for_a_class_of_a_containment_pair'] += sum(1 for q in c['queries'] if any(x in pairc for x in q[2:] if isinstance(x, str)))
             clsk = {n[0]: n[3] for n in o['raw']['nodes']}
@@ -838,7 +917,9 @@ class RandomStream(QueryStream):
     rule = ('1-3 random typed graphs (1-12 nodes each; tree/sparse/medium/dense/FIM-shaped; overwritten links, self-loops; '
             'NodeIDs shared between graphs) in one store, both in-memory backends; per graph 3 queries of each kind '
             '(first, second, shortest path with and without relation, parent), helpers, path-with-hops on graphs <= 8 nodes; '
-            'hop lists are LISTS (repeated hops, end nodes named as hops); 20% of the cases add a graph with a chorded short path '
+            '35% of the cases give links (and nodes) ordinary properties NAMED weight / capacity / cost / length / distance (positive, zero, '
+            'negative, float, huge, non-numeric, None values) and 20% add a graph with a short route of heavy-weight links next to a '
+            'longer light one; hop lists are LISTS (repeated hops, end nodes named as hops); 20% of the cases add a graph with a chorded short path '
             'through the hop next to a chordless detour, links inserted in random order; classes drawn from ALL CLASS_* constants of the library; 30% of the cases give one node neighbours of BOTH classes '
             'of a name-containment pair (Link / CompositeLink, computed from the constants) over the same relation, each with a '
             'further neighbour, and ask for either class on both hops; a few start nodes / graphs that do not exist; 60% of the shared-store cases with >= 2 graphs hold CROSS-GRAPH edges '
@@ -866,7 +947,7 @@ class ExhaustiveStream(QueryStream):
             'vector sorted) over 2 classes x 2 relations (on the shared store <= 3 nodes the two classes are Link / CompositeLink, the '
             'library\'s pair of class names where one contains the other), stored next to a foreign graph reusing the same NodeIDs; EVERY '
             'start/end node, relation (and none), class, hop set (quick: all subsets; 4 nodes: empty, singletons, all; plus every [h,h] and [a,z,a]) and '
-            'cutoff in {100,1}; on the shared store every enumerated graph with >= 2 nodes is also joined to the foreign graph '
+            'cutoff in {100,1}; every link carries weight/cost/length properties (heavy on `has`, light on `connects`); on the shared store every enumerated graph with >= 2 nodes is also joined to the foreign graph '
             'by three cross-graph edges; one case = one graph with all its queries')
 
     def gen(self, rng, tier):
@@ -890,7 +971,7 @@ def run_mutation(imp, objs2, step):
         if kind == 'add_node':
             g.add_node(node_id=step[3], label=step[4], props={'Name': 'name-' + step[3]})
         elif kind == 'add_link':
-            g.add_link(node_a=step[3], rel=step[5], node_b=step[4])
+            g.add_link(node_a=step[3], rel=step[5], node_b=step[4], props=(step[6] if len(step) > 6 else None))
         elif kind == 'del_node':
             g.delete_node(node_id=step[3])
         elif kind == 'merge':
@@ -912,6 +993,8 @@ def random_history(rng, backend):
                            rng.choice(['tree', 'tree', 'sparse', 'fim'])) for gi in range(ng)]
     for g in graphs:
         g['links'] = [l for l in g['links'] if l[0] != l[1]]
+    if rng.random() < 0.4:
+        add_algo_props(rng, {'graphs': graphs})
     g0 = graphs[0]
     ids = [n[0] for n in g0['nodes']]
     cls_now = {n[0]: n[1] for n in g0['nodes']}
@@ -944,7 +1027,7 @@ def random_history(rng, backend):
             steps.append(['q', o, rng.choice(pool)])
         elif u < 0.82 and nlinks < 11:
             a, b = rng.sample(live, 2)
-            steps.append(['add_link', o, 'g0', a, b, pr()])
+            steps.append(['add_link', o, 'g0', a, b, pr()] + ([{rng.choice(ALGO_ATTRS[:2]): rng.choice(ALGO_VALUES)}] if rng.random() < 0.35 else []))
             nlinks += 1
         elif u < 0.90 and spare and len(live) < 7:
             nid = spare.pop(0)
